@@ -129,3 +129,27 @@ Theorem C05_msc_apply_only_after_limit : forall t g (s : sim R) (m : mscstep R),
       snd (msc_apply_act s1 m1) = true /\ mstep (fst (msc_apply_act s1 m1)) = t).
 Proof. exact msc_apply_only_after_limit. Qed.
 Print Assumptions C05_msc_apply_only_after_limit.
+
+(** calc_physics_step_limit: a stopped particle gets (0, discrete action); consequently a
+    stopped live track takes a zero-length step IN PLACE that is handed to discrete-select
+    and then to the selected (at-rest) interaction -- never to a pure step limiter *)
+Theorem C05_stopped_particle_interacts_at_rest :
+  forall fixed i (s : sim R) mfp xs has_eloss eloss_step fixed_limit no_processes,
+  (mstat s = Initializing \/ mstat s = Alive) ->
+  mE s = 0 ->
+  (in_phys_step i, in_phys_action i)
+    = calc_physics_step_limit true mfp xs has_eloss eloss_step fixed_limit no_processes ->
+  let a := along_step_act i (pre_step i s) in
+  mstep a = 0 /\ mpost a = ADiscrete /\ mpos a = mpos s /\ mtime a = mtime s /\ mE a = 0
+  /\ mstat a = Alive
+  /\ mpost (discrete_select i a) = in_select i
+  /\ (in_select i = AModel ->
+      mpost (interact_act fixed i (discrete_select i a)) = AModel
+      \/ mpost (interact_act fixed i (discrete_select i a)) = AFailure).
+Proof. exact stopped_particle_interacts_at_rest. Qed.
+Print Assumptions C05_stopped_particle_interacts_at_rest.
+
+Theorem C05_physics_limit_le_mfp : forall mfp xs he es fx np,
+  fst (calc_physics_step_limit (T:=R) false mfp xs he es fx np) <= mfp / xs.
+Proof. exact calc_limit_le_mfp. Qed.
+Print Assumptions C05_physics_limit_le_mfp.
